@@ -111,7 +111,7 @@ def run_case(spec):
         d = min(d, 3)
     obs = dict(bound_samples_histogrammed=0, reference_points_in_bound=0, reference_proposals=0,
                ellipsoid_volume_checks=0, members=0, cells_used=0, frac_multiplicity_ge2_max=0.0,
-               pool_bounds=0, roundtrip_bounds=0, z_volume_abs_max=0.0)
+               pool_bounds=0, roundtrip_bounds=0, trimmed_unions=0, z_volume_after_trim_abs_max=0.0, z_volume_abs_max=0.0)
     pool = None
     try:
         prob = boundgen.problem(rng, shape, d, n_live=int(rng.integers(250, 600)))
@@ -135,10 +135,19 @@ def run_case(spec):
                 for _ in range(int(rng.integers(1, 17))):
                     if not bound.split():
                         break
+                if spec['i'] % 2 == 1 and len(bound.bounds) > 2:
+                    # sample a little, then drop the lowest-density member: volume and uniformity must describe the
+                    # union that is left, not the one that was sampled before
+                    bound.sample(int(rng.integers(20000, 40000)))
+                    if bound.trim(threshold=1.0):
+                        obs['trimmed_unions'] = 1
+                        # volume reported right after the trim, before the big draw below dilutes anything stale
+                        early = (float(bound.log_v), int(bound.n_sample), int(bound.n_reject))
         except (np.linalg.LinAlgError, ValueError) as e:
             return {'status': 'skipped', 'reason': 'build: %r' % e, 'obs': obs}
 
         n_s = spec['n_samples']
+        early = locals().get('early')
 
         def draw(n):
             if kind == 'NautilusBound':
@@ -210,6 +219,15 @@ def run_case(spec):
         if len(ref) < 5000 or v_ref <= 0:
             return {'status': 'skipped', 'reason': 'reference too sparse (%d points in bound)' % len(ref), 'obs': obs}
 
+        if early is not None:
+            v_e, n_e, r_e = np.exp(early[0]), early[1], early[2]
+            rv = (r_e / n_e) / max(n_e - r_e, 1)
+            z_e = (v_e - v_ref) / np.sqrt(v_e ** 2 * rv + v_ref_sd ** 2)
+            obs['z_volume_after_trim_abs_max'] = abs(float(z_e))
+            if abs(z_e) > Z_MAX:
+                viols.append(dict(key='bound.volume-miscalibrated-after-trim.' + kind,
+                                  what='right after trim() exp(log_v) = %.6g (from %d proposals) but the measure of '
+                                  '{contains} is %.6g +- %.2g (z = %.1f)' % (v_e, n_e, v_ref, v_ref_sd, z_e), z=float(z_e)))
         v = np.exp(log_v)
         z = (v - v_ref) / np.sqrt(v ** 2 * rel_var + v_ref_sd ** 2)
         obs['z_volume_abs_max'] = abs(float(z))
